@@ -117,8 +117,8 @@ def file_stem(r, cps, decorate=False):
         stem = "-".join(hexes)
     if decorate:
         # a prefix must not contain a hex digit, a suffix must not continue the sequence
-        pre = r.choice(["", "", "my ", "ŝtr, ", "'q' ", "zz\"q\" ", "x#y% ", "łuk: ", "(z) ", "[z] ", "z&z; ", "~z+z= ", "{z}z ", "<z>^ ", "z!z@ ", "z? "])
-        suf = r.choice(["", "", " (x)", ", z", " 'q'", ' "q"', " #%", " ü", ": z", " [1]", " [x-z]", "?", " &;", " +=@~", " {z}", " ^<>", "!"])
+        pre = r.choice(["", "", "my ", "ŝtr, ", "'q' ", "zz\"q\" ", "x#y% ", "łuk: ", "(z) ", "[z] ", "z&z; ", "~z+z= ", "{z}z ", "<z>^ ", "z!z@ ", "z? ", " z ", "z\tz "])
+        suf = r.choice(["", "", " (x)", ", z", " 'q'", ' "q"', " #%", " ü", ": z", " [1]", " [x-z]", "?", " &;", " +=@~", " {z}", " ^<>", "!", " ", " z "])
         if style == "emoji_u":
             pre = ""  # the emoji_u prefix is only recognised at the very start of the name
         stem = pre + stem + suf
@@ -176,11 +176,18 @@ def toml_value(v):
     return json.dumps(str(v), ensure_ascii=False)
 
 
-def flag_args(opts):
+def flag_args(opts, r=None):
+    """r: optional PRNG; with it the spelling of each flag is drawn too (--k v, --k=v, --k=true/false for booleans)"""
     out = []
     for k, v in opts.items():
+        style = r.choice(["space", "space", "equals"]) if r is not None else "space"
         if isinstance(v, bool):
-            out.append("--%s%s" % ("" if v else "no", k))
+            if style == "equals":
+                out.append("--%s=%s" % (k, "true" if v else "false"))
+            else:
+                out.append("--%s%s" % ("" if v else "no", k))
+        elif style == "equals":
+            out.append("--%s=%s" % (k, v))
         else:
             out += ["--" + k, str(v)]
     return out
